@@ -90,6 +90,10 @@ Section Printer.
     let+ s := src v in Ok (if maxl <? expression_level v then S "(" ++ s ++ S ")" else s).
   Definition opt (pre : str) (f : string) (v : value) : PRs :=
     if fnone f v then Ok [] else let+ s := src (get f v) in Ok (pre ++ s).
+  (* compute-level slots: _operand_source(x, sql_type, 8) *)
+  Definition operands8 (l : list value) : res (list str) := map_res (fun x => operand x 8) l.
+  Definition opt8 (pre : str) (f : string) (v : value) : PRs :=
+    if fnone f v then Ok [] else let+ s := operand (get f v) 8 in Ok (pre ++ s).
   Definition opt_s (pre : str) (f : string) (v : value) : str := if fnone f v then [] else pre ++ fstr f v.
   Definition keyword_if (b : bool) (s : string) : str := if b then S s else [].
   Definition bq (s : str) : str := S "`" ++ s ++ S "`".
@@ -119,8 +123,8 @@ Section Printer.
     let my := d_eqb d D_MYSQL in
     let+ ty := src (get "column_type" v) in
     let+ gen := if my then opt (S " ") "generated_always_as" v else Ok [] in
-    let+ dflt := if my then opt (S " DEFAULT ") "default" v else Ok [] in
-    let+ onu := if my then opt (S " ON UPDATE ") "on_update" v else Ok [] in
+    let+ dflt := if my then opt8 (S " DEFAULT ") "default" v else Ok [] in
+    let+ onu := if my then opt8 (S " ON UPDATE ") "on_update" v else Ok [] in
     Ok (bq (fstr "column_name" v) ++ S " " ++ ty
         ++ keyword_if (fbool "is_unsigned" v && my) " UNSIGNED"
         ++ keyword_if (fbool "is_zerofill" v && my) " ZEROFILL"
@@ -233,12 +237,12 @@ Section Printer.
         Ok (n ++ S "(" ++ keyword_if (fbool "is_distinct" v) "DISTINCT " ++ join (S ", ") ps ++ S ")")
       else if String.eqb c "ASTCastFunctionExpression" then
         let+ n := pr D_DEFAULT (get "name" v) in
-        let+ e := src (get "column_expression" v) in
+        let+ e := operand (get "column_expression" v) 8 in
         let+ t := src (get "cast_type" v) in Ok (n ++ S "(" ++ e ++ S " AS " ++ t ++ S ")")
       else if String.eqb c "ASTExtractFunctionExpression" then
         let+ n := pr D_DEFAULT (get "name" v) in
-        let+ a := src (get "extract_name" v) in
-        let+ b := src (get "column_expression" v) in Ok (n ++ S "(" ++ a ++ S " FROM " ++ b ++ S ")")
+        let+ a := operand (get "extract_name" v) 8 in
+        let+ b := operand (get "column_expression" v) 8 in Ok (n ++ S "(" ++ a ++ S " FROM " ++ b ++ S ")")
       else if String.eqb c "ASTWindowRowItem" then
         match get "row_type" v with
         | VEnum ec n =>
@@ -252,7 +256,7 @@ Section Printer.
         let+ a := src (get "from_row" v) in let+ b := src (get "to_row" v) in Ok (S "ROWS BETWEEN " ++ a ++ S " AND " ++ b)
       else if String.eqb c "ASTWindowExpression" then
         let+ f := src (get "window_function" v) in
-        let+ ps := srcs (ftuple "partition_by_columns" v) in
+        let+ ps := operands8 (ftuple "partition_by_columns" v) in
         let+ os := srcs (ftuple "order_by_columns" v) in
         let+ rw := if fnone "row_expression" v then Ok [] else let+ s := src (get "row_expression" v) in Ok [s] in
         let parts := (match ps with [] => [] | _ => [S "PARTITION BY " ++ join (S ", ") ps] end)
@@ -274,7 +278,7 @@ Section Printer.
         let+ vs := map_res (fun x => operand x 8) (ftuple "values" v) in Ok (S "(" ++ join (S ", ") vs ++ S ")")
       else if String.eqb c "ASTIndexExpression" then
         if negb (d_eqb d D_HIVE) then Err NotSupport else
-        let+ a := src (get "array" v) in let+ i := src (get "idx" v) in Ok (a ++ S "[" ++ i ++ S "]")
+        let+ a := src (get "array" v) in let+ i := operand (get "idx" v) 8 in Ok (a ++ S "[" ++ i ++ S "]")
       else if String.eqb c "ASTUnaryExpression" then
         let+ o := src (get "operator" v) in
         let+ e := operand (get "expression" v) 2 in
@@ -324,18 +328,18 @@ Section Printer.
                                      end) (ftuple "grouping_list" v) in
         Ok (S "GROUPING SETS (" ++ join (S ", ") gs ++ S ")")
       else if String.eqb c "ASTGroupByClause" then
-        let+ cs := srcs (ftuple "columns" v) in
+        let+ cs := operands8 (ftuple "columns" v) in
         let+ gs := opt (S " ") "grouping_sets" v in
         Ok (S "GROUP BY " ++ join (S ", ") cs ++ gs ++ keyword_if (fbool "with_cube" v) " WITH CUBE" ++ keyword_if (fbool "with_rollup" v) " WITH ROLLUP")
       else if String.eqb c "ASTOrderByColumn" then
-        let+ col := src (get "column" v) in
+        let+ col := operand (get "column" v) 8 in
         let+ o := src (get "order" v) in
         let nulls := keyword_if (fbool "nulls_first" v) " NULLS FIRST" ++ keyword_if (fbool "nulls_last" v) " NULLS LAST" in
         Ok (if str_eqb o (S "ASC") then col ++ nulls else col ++ S " DESC" ++ nulls)
       else if String.eqb c "ASTOrderByClause" then let+ cs := srcs (ftuple "columns" v) in Ok (S "ORDER BY " ++ join (S ", ") cs)
       else if String.eqb c "ASTSortByClause" then let+ cs := srcs (ftuple "columns" v) in Ok (S "SORT BY " ++ join (S ", ") cs)
-      else if String.eqb c "ASTDistributeByClause" then let+ cs := srcs (ftuple "columns" v) in Ok (S "DISTRIBUTE BY " ++ join (S ", ") cs)
-      else if String.eqb c "ASTClusterByClause" then let+ cs := srcs (ftuple "columns" v) in Ok (S "CLUSTER BY " ++ join (S ", ") cs)
+      else if String.eqb c "ASTDistributeByClause" then let+ cs := operands8 (ftuple "columns" v) in Ok (S "DISTRIBUTE BY " ++ join (S ", ") cs)
+      else if String.eqb c "ASTClusterByClause" then let+ cs := operands8 (ftuple "columns" v) in Ok (S "CLUSTER BY " ++ join (S ", ") cs)
       else if String.eqb c "ASTLimitClause" then
         let lim := match get "limit" v with VInt z => z_to_str z | _ => S "None" end in
         Ok (match get "offset" v with VInt z => S "LIMIT " ++ z_to_str z ++ S ", " ++ lim | _ => S "LIMIT " ++ lim end)
